@@ -7,9 +7,9 @@
 (* facts) so that random walks produce sparse as well as dense graphs.     *)
 (* One REPLAY line per completed behaviour.                                *)
 (***************************************************************************)
-EXTENDS HpoCore, Json
+EXTENDS HpoSim, Json
 
-CONSTANTS MaxEdges, MaxFacts
+CONSTANTS MaxEdges, MaxFacts, WithPairs
 
 VARIABLES edges, facts, budget
 
@@ -47,7 +47,8 @@ FSpec == FInit /\ [][FNext]_fullVars
 
 Done == phase = "connected" /\ Len(facts) = budget.facts
 
-Expect == [ arena |-> arena, edges |-> edges, facts |-> facts, expect |-> Proj ]
+Expect == [ arena |-> arena, edges |-> edges, facts |-> facts, expect |-> Proj,
+            pairs |-> IF WithPairs THEN SimPairs ELSE <<>> ]
 Emit == Done => PrintT(<<"REPLAY", ToJson(Expect)>>)
 
 RecsSim == [k \in Kinds |-> IF k = "gene" THEN {1, 2, 3} ELSE IF k = "omim" THEN {1, 2} ELSE {1}]
